@@ -9,6 +9,14 @@ R37c on the path where it was the user's last connection, the user is removed fr
 R37d ownership: the map is written only by user_subscribed_pubsub (acquire) and on_ws_disconnect.
 R37e the removal loop iterates the live engine map without suspending (no await in its body, or it iterates a snapshot):
      a suspension lets an engine register/disconnect, the dict changes size and the loop aborts with the user still listed.
+R37f the user id recorded for a connection is the whole remainder of the topic after the "dead_man_switch/" prefix: the
+     filter tests the prefix including its separator, and the id is not cut at a later "/" (`split(sep)[1]` keeps only the
+     part up to the next separator, so a user id with "/" in it is recorded - and later removed - under a different key
+     than the one active_users uses).
+R37g the acquire site keeps every user of a connection (it accumulates into a collection); a plain `map[conn] = user`
+     overwrites, and the user recorded first stays listed after the connection closed.
+R37h a user is inserted into active_users only after the connection map was consulted for a live connection of that user
+     (removal is edge-triggered by a disconnect, so a user inserted with no live connection is never removed).
 Decides the pairing structure, not the behaviour of the pub/sub library that invokes the callbacks.
 """
 from __future__ import annotations
@@ -55,6 +63,8 @@ def run(ctx) -> None:
         isinstance(t, ast.Subscript) and is_attr_of(t.value, s2, MAP) for t in n.targets)]
     if not acquires:
         raise AnchorError("acquire site self.dead_man_switch_user_ids[...] = ... not found in user_subscribed_pubsub")
+
+    _r37f_g(ctx, acq, s2, acquires)
 
     # ---- R37a
     kills = [n for n in g.nodes if kill_of_container_key(n, is_map, is_sub)]
@@ -109,6 +119,73 @@ def run(ctx) -> None:
     _r37c_and_d(ctx, prog, f, acq, g)
 
 
+def _r37f_g(ctx, acq, s2, acquires):
+    ctx.rule("R37f", "the recorded user id is the whole topic remainder after 'dead_man_switch/'")
+    ctx.rule("R37g", "the acquire site keeps every user of a connection")
+    defs = local_single_defs(acq)
+    # ---- prefix test
+    tests = [c for c in ast.walk(acq.node) if isinstance(c, ast.Call) and call_attr(c) == "startswith" and c.args]
+    if not tests:
+        raise AnchorError("user_subscribed_pubsub: no startswith(...) test selecting the dead man switch topics")
+    for c in tests:
+        a = expand_local(c.args[0], defs)
+        inst = "topic filter tests the prefix with its separator"
+        if _ends_with_sep(a):
+            ctx.ok("R37f", inst, {"rule": "R37f", "prefix": norm(a)})
+        else:
+            ctx.fail("R37f", acq, c, inst, f"`{norm(c)[:80]}` accepts every topic that merely starts with the letters of the dead man "
+                     "switch topic (e.g. the topics of a process unit called dead_man_switch_...): such a topic is recorded as the "
+                     "connection's user and overwrites the real one, which is then never removed from active_users")
+    # ---- extraction
+    cuts, whole = [], []
+    for x in ast.walk(acq.node):
+        if isinstance(x, ast.Subscript) and isinstance(x.value, ast.Call) and call_attr(x.value) in ("split", "rsplit", "partition"):
+            c = x.value
+            at = call_attr(c)
+            limited = at == "partition" or len(c.args) >= 2 or any(k.arg == "maxsplit" for k in c.keywords)
+            idx = x.slice.value if isinstance(x.slice, ast.Constant) else None
+            if at == "split" and limited and idx == 1 or at == "partition" and idx == 2:
+                whole.append(x)
+            else:
+                cuts.append(x)
+        elif isinstance(x, ast.Subscript) and isinstance(x.slice, ast.Slice) and x.slice.lower is not None and x.slice.upper is None:
+            whole.append(x)
+        elif isinstance(x, ast.Call) and call_attr(x) == "removeprefix":
+            whole.append(x)
+    inst = "user id = whole remainder of the topic"
+    for x in cuts:
+        ctx.fail("R37f", acq, x, inst, f"`{norm(x)[:70]}` keeps only the part of the topic up to the next separator: a user id that "
+                 "contains the separator is recorded under a shortened key, on_ws_disconnect pops that key from active_users "
+                 "(keyed by the full id) and the user stays listed after the last connection closed")
+    if not cuts:
+        if not whole:
+            raise AnchorError("user_subscribed_pubsub: how the user id is taken from the topic is not recognised (accepted: "
+                              "topic[len(prefix):], removeprefix, split(sep, 1)[1], partition(sep)[2])")
+        ctx.ok("R37f", inst, {"rule": "R37f", "extraction": [norm(w) for w in whole]})
+    # ---- R37g
+    for a in acquires:
+        inst = f"acquire: {norm(a)[:90]}"
+        v = a.value
+        coll = isinstance(v, (ast.Set, ast.List, ast.SetComp, ast.ListComp, ast.BinOp)) or (
+            isinstance(v, ast.Call) and isinstance(v.func, ast.Name) and v.func.id in ("set", "list", "frozenset", "tuple"))
+        if coll:
+            ctx.ok("R37g", inst)
+        else:
+            ctx.fail("R37g", acq, a, inst, "the connection's entry is overwritten with a single user id: a connection that "
+                     "subscribes the dead man switch of a second user (re-login on the same page, or two topics in one subscribe) "
+                     "forgets the first, and the first user stays listed as active after the connection closed")
+
+
+def _ends_with_sep(e: ast.AST) -> bool:
+    if isinstance(e, ast.Constant) and isinstance(e.value, str):
+        return e.value.endswith("/")
+    if isinstance(e, ast.BinOp) and isinstance(e.op, ast.Add):
+        return _ends_with_sep(e.right)
+    if isinstance(e, ast.JoinedStr) and e.values:
+        return _ends_with_sep(e.values[-1])
+    return False
+
+
 def _r37c_and_d(ctx, prog, f, acq, g):
     # ---- R37c
     loops = []
@@ -158,6 +235,26 @@ def _r37c_and_d(ctx, prog, f, acq, g):
             ctx.fail("R37e", f, awaits[0], inst, f"`{norm(awaits[0])[:70]}` suspends the coroutine inside the loop over the live engine map: an "
                      "engine registering or disconnecting meanwhile changes the dict, the iteration raises RuntimeError and the user "
                      "stays listed as active on the remaining process units although the last connection is gone")
+    # ---- R37h
+    ctx.rule("R37h", "insertion into active_users consults the connection map")
+    n_ins = 0
+    for fn in prog.iter_functions():
+        if not fn.qualname.startswith("openpectus.aggregator."):
+            continue
+        for n in walk_no_nested(fn.node):
+            if isinstance(n, ast.Assign) and any(isinstance(t, ast.Subscript) and isinstance(t.value, ast.Attribute)
+                                                 and t.value.attr == "active_users" for t in n.targets):
+                n_ins += 1
+                inst = f"{fn.short}: insertion into active_users is guarded by a look-up of {MAP}"
+                reads = [x for x in ast.walk(fn.node) if isinstance(x, ast.Attribute) and x.attr == MAP and x.lineno < n.lineno]
+                if reads:
+                    ctx.ok("R37h", inst)
+                else:
+                    ctx.fail("R37h", fn, n, inst, f"`{norm(n)[:60]}` lists the user without asking whether the user has a live "
+                             f"connection ({MAP} is never read here): a registration handled after the user's last connection "
+                             "closed (closing tab, websocket down) is listed and no later event removes it")
+    if n_ins == 0:
+        raise AnchorError("no insertion into active_users found in openpectus.aggregator")
     # ---- R37d ownership
     allowed = {f.qualname, acq.qualname, f"{CLS}.__init__"}
     writers = []
